@@ -1447,7 +1447,25 @@ def gen_trace_spec(rng, tier):
             else:
                 kw = rng.choice(([{"axis": 0}, {"axis": -1, "keepdims": True}, {"keepdims": True}, {"axis": 0, "keepdims": True}]
                                  if direct_vec else [{"keepdims": True}]))
-            instrs.append([opn, a, kw])
+            if opn == "clamp" and rng.random() < 0.6:
+                # parameters COMPUTED from the inputs (amin/amax of another operand): they must be program slots,
+                # not values frozen at trace time
+                src = rng.choice(avail)
+                instrs.append(["amin", src]); avail.append(100 + len(instrs) - 1)
+                lo = avail[-1]
+                src2 = rng.choice(avail[:-1])
+                instrs.append(["amax", src2]); avail.append(100 + len(instrs) - 1)
+                hi = avail[-1]
+                form = rng.choice(["kw-min", "kw-max", "kw-both", "pos-both", "kw-mixed"])
+                if form == "pos-both":
+                    instrs.append(["clamp", a, lo, hi])
+                else:
+                    kw = {"kw-min": {"min": ["r", lo]}, "kw-max": {"max": ["r", hi]},
+                          "kw-both": {"min": ["r", lo], "max": ["r", hi]},
+                          "kw-mixed": {"min": -0.5, "max": ["r", hi]}}[form]
+                    instrs.append(["clamp", a, kw])
+            else:
+                instrs.append([opn, a, kw])
         elif r0 < 0.45:
             instrs.append([rng.choice(["neg", "abs", "exp", "tanh"]), pick()])
             if isinstance(instrs[-1][1], list):
@@ -1457,7 +1475,8 @@ def gen_trace_spec(rng, tier):
             if isinstance(a, list) and isinstance(b, list):
                 a = rng.choice(avail)
             instrs.append([rng.choice(["add", "sub", "mul", "max", "min"]), a, b])
-        avail.append(100 + t)
+        if avail[-1] != 100 + len(instrs) - 1:
+            avail.append(100 + len(instrs) - 1)
     if rng.random() < 0.85 or not instrs:
         ret = avail[-1]
     else:
@@ -1466,7 +1485,10 @@ def gen_trace_spec(rng, tier):
     for name, shape in inputs:
         data[name] = [rng.choice(VALS) for _ in range(shape)] if shape else rng.choice(VALS)
     has_kw = any(isinstance(ins[-1], dict) for ins in instrs)
-    return {"inputs": inputs, "instrs": instrs, "ret": ret, "data": data, "allow": has_kw and len(instrs) % 4 == 0}
+    fresh = [{name: ([rng.choice(VALS) for _ in range(shape)] if shape else rng.choice(VALS)) for name, shape in inputs}
+             for _ in range(2)]
+    return {"inputs": inputs, "instrs": instrs, "ret": ret, "data": data, "fresh": fresh,
+            "allow": has_kw and len(instrs) % 4 == 0}
 
 
 class TraceFn:
@@ -1491,6 +1513,7 @@ class TraceFn:
         for t, ins in enumerate(self.spec["instrs"]):
             op = getattr(ops, ins[0])
             kws = ins[-1] if isinstance(ins[-1], dict) else {}
+            kws = {k: (get(t, -1, v[1]) if isinstance(v, list) else v) for k, v in kws.items()}
             res.append(op(*[get(t, j, a) for j, a in enumerate(ins[1:]) if not isinstance(a, dict)], **kws))
         r = self.spec["ret"]
         return res[r - 100] if r >= 100 else vals[r]
@@ -1508,7 +1531,7 @@ def fn(**kw):
     res = []
     get = lambda a: (a[1] if isinstance(a, list) else (res[a - 100] if a >= 100 else vals[a]))
     for ins in spec["instrs"]:
-        res.append(getattr(ops, ins[0])(*[get(a) for a in ins[1:] if not isinstance(a, dict)], **(ins[-1] if isinstance(ins[-1], dict) else {{}})))
+        res.append(getattr(ops, ins[0])(*[get(a) for a in ins[1:] if not isinstance(a, dict)], **{{k: (get(v[1]) if isinstance(v, list) else v) for k, v in (ins[-1] if isinstance(ins[-1], dict) else {{}}).items()}}))
     r = spec["ret"]
     return res[r - 100] if r >= 100 else vals[r]
 data = {{k: np.array(v, dtype=np.float64) for k, v in spec["data"].items()}}
@@ -1520,9 +1543,11 @@ with np.errstate(all="ignore"):
     except (KeyError, NotImplementedError) as e:
         traced = None; print("declined", repr(e))
     if traced is not None:
-        got = traced(**data)
-        print(got, "expected", expected)
-        FAILS = not (np.shape(got) == np.shape(expected) and np.allclose(got, expected, rtol=1e-12, atol=1e-12, equal_nan=True))
+        for b in [spec["data"]] + spec.get("fresh", []):       # the trace binding, then FRESH bindings
+            b = {{k: np.array(v, dtype=np.float64) for k, v in b.items()}}
+            got, want = traced(**b), fn(**b)
+            print(got, "expected", want)
+            FAILS = FAILS or not (np.shape(got) == np.shape(want) and np.allclose(got, want, rtol=1e-12, atol=1e-12, equal_nan=True))
 print("FAILS =", FAILS)
 '''
 
@@ -1543,6 +1568,10 @@ def check_trace(ctx, spec, use_driver=True):
             return
         if has_kw:
             ctx.count("trace:has-keyword-op-arguments")
+        if any(isinstance(v, list) for ins in spec["instrs"] if isinstance(ins[-1], dict) for v in ins[-1].values()):
+            ctx.count("trace:has-COMPUTED-keyword-parameter")
+        if any(ins[0] == "clamp" and len(ins) == 4 for ins in spec["instrs"]):
+            ctx.count("trace:has-COMPUTED-positional-parameter")
         declined = None
         # keyword-spelled calls trace WITHOUT allow_constants (bound bool defaults are constants, like ints);
         # a quarter of them is still traced with allow_constants=True (spec["allow"])
@@ -1571,16 +1600,26 @@ def check_trace(ctx, spec, use_driver=True):
                 variants.append(("traced-as_code", env["program"]))
             except SyntaxError:
                 ctx.count("trace:as_code-syntax")
-            for nm, f in variants:
+            bindings = [("trace-binding", data, expected)]
+            for fb in spec.get("fresh", []):
+                fbd = {k: np.array(v, dtype=np.float64) for k, v in fb.items()}
                 try:
-                    got = f(**data)
-                except Exception as e:
-                    ctx.fail("input", f"C18.{nm}-raises", witness=wit, got=repr(e), expected=jsonable(expected), python=py)
-                    return
-                if not same_value(got, expected, 1e-12):
-                    ctx.fail("input", f"C18.{nm}-ne-direct-call", witness=wit, got=jsonable(got),
-                             expected=jsonable(expected), python=py)
-                    return
+                    bindings.append(("fresh-binding", fbd, fn(**fbd)))
+                except Exception:
+                    ctx.count("trace:fresh-binding-direct-call-raises")
+            for nm, f in variants:
+                for bname, bd, want in bindings:
+                    try:
+                        got = f(**bd)
+                    except Exception as e:
+                        ctx.fail("input", f"C18.{nm}-raises", witness=dict(wit, binding=bname), got=repr(e),
+                                 expected=jsonable(want), python=py)
+                        return
+                    if not same_value(got, want, 1e-12):
+                        ctx.fail("input", f"C18.{nm}-ne-direct-call({bname})", witness=dict(wit, binding=bname),
+                                 got=jsonable(got), expected=jsonable(want), python=py)
+                        return
+                    ctx.count("trace:checked-on-" + bname)
             for kind in ("missing", "extra"):
                 kw = dict(data)
                 if kind == "missing":
@@ -1693,7 +1732,7 @@ if mode.startswith("traced"):
         res = []
         get = lambda a: (a[1] if isinstance(a, list) else (res[a - 100] if a >= 100 else vals[a]))
         for ins in spec["instrs"]:
-            res.append(getattr(ops, ins[0])(*[get(a) for a in ins[1:] if not isinstance(a, dict)], **(ins[-1] if isinstance(ins[-1], dict) else {{}})))
+            res.append(getattr(ops, ins[0])(*[get(a) for a in ins[1:] if not isinstance(a, dict)], **{{k: (get(v[1]) if isinstance(v, list) else v) for k, v in (ins[-1] if isinstance(ins[-1], dict) else {{}}).items()}}))
         r = spec["ret"]
         return res[r - 100] if r >= 100 else vals[r]
     conv = lambda d: {{k: (v if isinstance(v, str) else np.array(v, dtype=np.float64)) for k, v in d.items()}}
@@ -1766,7 +1805,7 @@ def run_history(ctx, what, mode, obj, steps, conv, oracle, wit, py):
                              expected=jsonable(want), python=py)
                     return False
                 if not same_value(got, want, 1e-11):
-                    ctx.fail("input", f"C18.history-{mode}-" + ("first-call-ne-oracle" if i == 0 else "answer-depends-on-earlier-calls"),
+                    ctx.fail("input", f"C18.history-{mode}-" + ("first-call-ne-oracle" if i == 0 else "later-call-ne-oracle(fresh-binding-or-history)"),
                              witness=dict(wit, step=i),
                              got=jsonable(got), expected=jsonable(want), python=py)
                     return False
@@ -1868,6 +1907,47 @@ def history_trace_case(ctx, tspec, rng):
         if not run_history(ctx, "traced", mode, obj, steps, conv, oracle, wit, py):
             return
     ctx.case(sample=None, nontrivial_key=("history-trace", json.dumps([tspec, steps])) if len(tspec["instrs"]) >= 1 else None)
+
+
+def singleton_merge_stream(ctx):
+    """The trace is keyed by id(result): ops returning the np.True_/np.False_ singletons are merged, so
+    and_(any(x), all(y)) traces to the program any(x).  Dedicated stream (clean stream has no bool-valued ops)."""
+    fn = lambda x, y: ops.and_(ops.any(x), ops.all(y))
+    d = dict(x=np.array([True, False]), y=np.array([True, True]))
+    d2 = dict(x=np.array([True, False]), y=np.array([True, False]))
+    try:
+        p = trace_function(fn, d)
+        reproduced = bool(p(**d2)) != bool(fn(**d2))
+    except Exception:
+        reproduced = False
+    fid = "KF-tracer-singleton-results-merged"
+    what = ("trace_function(lambda x,y: and_(any(x), all(y))) yields the program any(x): np.True_ results share one id, "
+            "later entries are dropped by trace.setdefault; returns True where the function returns False")
+    if reproduced:
+        if ctx.is_open(fid):
+            ctx.known(fid, True, what)
+        else:
+            ctx.count("observation:tracer-singleton-results-merged-reproduced(untriaged)")
+            ctx.extra["untriaged_observation"] = what
+    else:
+        ctx.count("tracer-singleton-results-merged:not-reproduced")
+        if ctx.is_open(fid):
+            ctx.known(fid, False)
+
+
+def fixed_trace_specs():
+    """op parameters computed from ANOTHER input, keyword / positional / mixed; fresh bindings differ from the trace's."""
+    ins = [["x", 3], ["y", 2]]
+    data = {"x": [-3.0, 0.5, 4.0], "y": [-1.0, 1.0]}
+    fresh = [{"x": [-3.0, 0.5, 4.0], "y": [0.0, 2.0]}, {"x": [1.5, -2.0, 0.25], "y": [-0.5, 0.25]}]
+    mk = lambda instrs, ret: {"inputs": ins, "instrs": instrs, "ret": ret, "data": data, "fresh": fresh, "allow": False}
+    return [
+        mk([["amin", 1], ["amax", 1], ["clamp", 0, {"min": ["r", 100], "max": ["r", 101]}]], 102),
+        mk([["amin", 1], ["amax", 1], ["clamp", 0, 100, 101]], 102),
+        mk([["amax", 1], ["clamp", 0, {"max": ["r", 100]}], ["mul", 101, 0]], 102),
+        mk([["amin", 1], ["clamp", 0, {"min": ["r", 100], "max": 1.0}], ["sub", 101, 100]], 102),
+        mk([["mul", 1, 1], ["amax", 100], ["neg", 101], ["clamp", 0, {"min": ["r", 102], "max": ["r", 101]}]], 103),
+    ]
 
 
 def history_stream(ctx):
@@ -1986,6 +2066,11 @@ def correspond(ctx):
         inverse_stream(ctx)
     if not (ctx.failures or ctx.infra_errors):
         param_stream(ctx)
+    singleton_merge_stream(ctx)
+    for tspec in fixed_trace_specs():
+        if ctx.failures or ctx.infra_errors:
+            break
+        check_trace(ctx, tspec)
     nt = 200 if ctx.tier == "quick" else 3000
     for _ in range(nt):
         if ctx.failures or ctx.infra_errors:
@@ -2012,6 +2097,10 @@ def search(ctx, broken):
         spec = gen_spec(rng, "thorough", batched=(t % 25 == 0))
         data = gen_data(rng, spec)
         check_case(ctx, spec, data, use_driver=False, stream="search")
+        if have():
+            return
+    for tspec in fixed_trace_specs():
+        check_trace(ctx, tspec, use_driver=False)
         if have():
             return
     for _ in range(2000):
